@@ -653,6 +653,9 @@ func oC07(ix *Index) []Violation {
 				out = append(out, v("C07", "wrong-data", "job %d: worker function saw data %q want %q", n, ev.D, j.It.S))
 			}
 		}
+		if len(j.Enters) > 1 && len(ix.C.Faults) == 0 {
+			out = append(out, v("C07", "payload-of-another-job", "the worker function was invoked %d times with the ID and data of job %d, which was submitted once: some other job reached it carrying this job's content (%s)", len(j.Enters), n, ix.describe(j.Enters...)))
+		}
 		if j.Add.Op == "add" && j.Add.Returned() && j.Add.RetEv.OK && len(j.EnterEvs) > 0 && j.Add.RetEv.S != j.EnterEvs[0].S && ix.QKinds[j.Q] != "pers" && ix.QKinds[j.Q] != "persprio" && ix.QKinds[j.Q] != "dist" && ix.QKinds[j.Q] != "distprio" {
 			out = append(out, v("C07", "handle-id", "job %d: handle ID %q differs from ID seen by the worker function %q", n, j.Add.RetEv.S, j.EnterEvs[0].S))
 		}
